@@ -257,6 +257,18 @@ class CoroutineProcessor(Processor):
                 self._promises[gen].value = exception.value
                 del self._promises[gen]
                 continue        # Do not rotate if last item was popped
+            except BaseException:
+                # The coroutine is over (SwitchWorld and Quit are raised
+                # from coroutines by design). Forget it and leave the
+                # queue as the next frame expects it: sentinel first,
+                # the coroutines not yet executed keep their turn.
+                gen = self._active_queue.popleft()
+                del self._generators[gen]
+                self._kill_queue.discard(gen)
+                del self._promises[gen]
+                while self._active_queue[0] is not None:
+                    self._active_queue.rotate(-1)
+                raise
 
             # Put in wait queue if requested
             if wait is not None and wait > 0:
